@@ -48,7 +48,8 @@ Record guards := mkguards {
   g_count     : bool;  (* ca7ff03  Merklizer.UnmarshalBinary: 0 <= entriesLen <= len(in) *)
   g_value     : bool;  (* f02e04b  IssuerData.State.Value == nil -> error (both verifiers) *)
   g_mtp       : bool;  (* f02e04b  Iden3SparseMerkleTreeProof.MTP == nil -> error *)
-  g_ctr       : bool;  (* f02e04b  State.ClaimsTreeRoot == nil -> error (SMT verifier) *)
+  g_ctr       : bool;  (* f02e04b / 6f84aa4  State.ClaimsTreeRoot == nil -> error (SMT verifier;
+                          verifyAuthClaimInclusion of the BJJ verifier) *)
   g_published : bool;  (* f02e04b  IdentityState.Published == nil -> "not published" *)
   g_aux       : bool;  (* 88617d1  NodeAux without key / value -> error *)
   g_recover   : bool;  (* 88617d1  recover() around merkletree.RootFromProof *)
@@ -704,7 +705,8 @@ Definition verify_auth_inclusion (g : guards) (b : bjjf) : res unit :=
   | Some m =>
       if negb (m_ex m) then Err "auth-mtp-not-existence" else
       match s_ctr (i_state (b_issuer b)) with
-      | HNil_ => Err "claims-root-unset"
+      | HNil_ => if g_ctr g then Err "claims-root-unset"
+                 else Panic "nil dereference: *State.ClaimsTreeRoot"
       | HBad => Err "claims-root-hex"
       | HGood =>
           if negb (b_auth_hihv_ok b) then Err "auth-hihv" else
